@@ -35,6 +35,19 @@ type c20Case struct {
 	Flag   string   `json:"informational_flag"`
 	TTY    bool     `json:"tty"`
 	Exit   string   `json:"self_exit,omitempty"` /* ctrl-c | ctrl-d | one-shell, with -attached suffix */
+	/* GC: the program runs with GOGC=1, i.e. the garbage collector (and
+	with it every finalizer) runs all the time instead of perhaps never in
+	a short session. */
+	GC bool `json:"gc_all_the_time,omitempty"`
+}
+
+// c20Env is the environment of the program under test.
+func c20Env(c c20Case, dir string) []string {
+	env := append(os.Environ(), "HOME="+dir, "CURLREVSHELL_LOG=")
+	if c.GC {
+		env = append(env, "GOGC=1")
+	}
+	return env
 }
 
 var c20Crash = []string{"panic:", "goroutine ", "SIGSEGV", "runtime error", "fatal error:"}
@@ -135,7 +148,7 @@ func c20Run(c c20Case, base string, goodCache []byte) (string, string) {
 	args, cleanup := c20Args(c, dir, goodCache)
 	defer cleanup()
 	cmd := exec.Command(binPath("curlrevshell"), args...)
-	cmd.Env = append(os.Environ(), "HOME="+dir, "CURLREVSHELL_LOG=")
+	cmd.Env = c20Env(c, dir)
 	cmd.Dir = dir
 	var (
 		p   *ptyrun.Proc
@@ -237,7 +250,7 @@ func c20SelfExit(c c20Case, base string) (string, string) {
 		args = append(args, "-one-shell")
 	}
 	cmd := exec.Command(binPath("curlrevshell"), args...)
-	cmd.Env = append(os.Environ(), "HOME="+dir, "CURLREVSHELL_LOG=")
+	cmd.Env = c20Env(c, dir)
 	p, err := ptyrun.Start(cmd)
 	if nil != err {
 		ev.Broken("%s", err)
@@ -344,12 +357,21 @@ func c20(r *ev.Result, tier string) {
 	}
 	var exits []c20Case
 	for _, how := range []string{"ctrl-c", "ctrl-d", "one-shell"} {
-		exits = append(exits, c20Case{TTY: true, Exit: how})
-		if "one-shell" != how {
-			exits = append(exits, c20Case{TTY: true, Exit: how + "-attached"})
+		for _, gc := range []bool{false, true} {
+			exits = append(exits, c20Case{TTY: true, Exit: how, GC: gc})
+			if "one-shell" != how {
+				exits = append(exits, c20Case{TTY: true, Exit: how + "-attached", GC: gc})
+			}
 		}
 	}
-	r.Rule = fmt.Sprintf("the real binary: every single fault of %v and every pair from different resources x informational flag %v x {pty, no controlling terminal}; every self-initiated exit %v; "+
+	/* Start-up failures with the collector running all the time. */
+	for _, c := range cases {
+		if c.TTY && "" == c.Flag && len(c.Faults) <= 1 {
+			c.GC = true
+			cases = append(cases, c)
+		}
+	}
+	r.Rule = fmt.Sprintf("the real binary: every single fault of %v and every pair from different resources x informational flag %v x {pty, no controlling terminal}; every self-initiated exit %v; exits and single faults also with the garbage collector (and finalizers) running all the time (GOGC=1); "+
 		"oracle: no panic/stack trace, non-zero status naming a cause (or the requested output), termios after exit equal to termios before start; distinct = distinct cases", faults, flags, []string{"ctrl-c", "ctrl-d", "one-shell", "…-attached"})
 	var mu sync.Mutex
 	parallel(len(cases)+len(exits), func(i int) {
@@ -375,6 +397,9 @@ func c20(r *ev.Result, tier string) {
 			}
 			if !c.TTY {
 				cls += "/no-tty"
+			}
+			if c.GC {
+				cls += "/gc"
 			}
 			r.Violate(ev.Violation{Signature: sig + "/" + cls + "/" + c.Flag, What: fmt.Sprintf("%+v: %s", c, what), Kind: "c20", Replay: c})
 		}
